@@ -275,5 +275,6 @@ def run_P(ck):
             return native(dict(c))
         report(ck, eng, [('', 'props.C03_P:replay', nat, None)], kind='S')
         functions_interpreted(ck, eng)
-    from props.C03_D import run_domain
+    from props.C03_D import run_domain, run_step
     run_domain(ck)
+    run_step(ck)
